@@ -25,7 +25,7 @@
 From LV Require Import Base.Bytes Base.Sx Model.Obj Model.Save Model.XrefMerge Model.Incremental Spec.History
   Proofs.XrefMergeProofs Proofs.XrefLoadProofs Proofs.IncrementalProofs Proofs.C07Full Proofs.C07Witness.
 From LV Require Model.Loader Model.Xref Spec.SaveSpec Proofs.SaveProofs Proofs.LoadProofsXref Proofs.FilterProofsDict Proofs.StrictRevisionProofs Proofs.StrictIncrementalProofs Proofs.C07Bytes Proofs.C07BytesTable
-  Proofs.C07BytesStream Proofs.C07BytesHistory Proofs.C07BytesExample.
+  Proofs.C07BytesStream Proofs.C07BytesHistory Proofs.C07BytesExample Spec.AbstractDoc Proofs.C07ResProofs.
 
 Local Open Scope N_scope.
 
@@ -382,6 +382,48 @@ Theorem C07_generation_hypothesis_needed :
     [((1, 0), ODict [(K_Type, OName (bs "Catalog"))]); ((2, 0), OInt 7); ((2, 1), OInt 8)].
 Proof. exact gen_hypothesis_needed. Qed.
 
+(* ---------------------------------------------------------------------------------------------------------
+   (D) the resource helper of an update keeps what the page could use (finding C11-inc-resources-shadow, repaired by
+   /repo e57537a).  [cur_objects s] is the document the update denotes at this moment (lookup: the object of the new
+   document, otherwise the one of the previous documents); [AbstractDoc.effective_resources] is C11's specification:
+   the nearest Resources entry up the Parent chain, flattened to (category, name, value).
+   Hypotheses = domain: the page id names a dictionary OBJECT of the denoted document; when the page's own Resources
+   entry is a reference whose target the update has not copied yet, that target is not a bare reference object of
+   the previous documents (opt_clone_object_to_new_document resolves such an object inside the previous documents
+   only and stores the result under the id: a quirk of the copy, not of the inheritance, outside this theorem).
+   Nothing is assumed about the Parent chain (cycles, reference objects, nodes rewritten by the update).
+   --------------------------------------------------------------------------------------------------------- *)
+Theorem C07_inc_resources_keep_inherited : forall s page pd,
+  lookup (cur_objects s) page = Some (ODict pd) ->
+  (forall i g, dict_get pd K_Resources = Some (ORef i g) -> lookup (new_objects s) (i, g) = None ->
+     forall o, lookup (prev_objects s) (i, g) = Some o -> match o with ORef _ _ => False | _ => True end) ->
+  forall l, AbstractDoc.effective_resources (cur_objects s) page = Some l ->
+  exists l', AbstractDoc.effective_resources (cur_objects (fst (get_or_create_resources s page))) page = Some l' /\
+             incl l l'.
+Proof. exact C07ResProofs.inc_resources_keep. Qed.
+
+(* non-vacuity: the update replayed on the crate (corpus/C07/repaired.sx) -- page 3 0 inherits /Font /F1 from the
+   Pages node through the indirect object 4 0 -- meets the hypotheses; after the helper the page still has the font,
+   after add_xobject it has the font and the image *)
+Theorem C07_example_inc_resources :
+  (lookup (cur_objects C07ResProofs.ex_state) (3, 0) = Some (ODict C07ResProofs.ex_page_dict) /\
+   (forall i g, dict_get C07ResProofs.ex_page_dict K_Resources = Some (ORef i g) -> C07ResProofs.plain_in_prev C07ResProofs.ex_state (i, g)) /\
+   AbstractDoc.effective_resources (cur_objects C07ResProofs.ex_state) (3, 0) = Some [(bs "Font", bs "F1", ORef 5 0)]) /\
+  AbstractDoc.effective_resources (cur_objects (fst (get_or_create_resources C07ResProofs.ex_state (3, 0)))) (3, 0) =
+    Some [(bs "Font", bs "F1", ORef 5 0)] /\
+  AbstractDoc.effective_resources (cur_objects (fst (add_xobject C07ResProofs.ex_state (3, 0) (bs "Im1") (5, 0)))) (3, 0) =
+    Some [(bs "Font", bs "F1", ORef 5 0); (bs "XObject", bs "Im1", ORef 5 0)].
+Proof. split; [exact C07ResProofs.ex_hypotheses | exact C07ResProofs.ex_repaired]. Qed.
+
+(* the code before the repair (Dictionary::new() for a page without a Resources entry) violates the statement: in the
+   same update the page has the font before the call and NO resource after it *)
+Theorem C07_inc_resources_shadow_v0_refuted : exists s page pd l,
+  lookup (cur_objects s) page = Some (ODict pd) /\
+  (forall i g, dict_get pd K_Resources = Some (ORef i g) -> C07ResProofs.plain_in_prev s (i, g)) /\
+  AbstractDoc.effective_resources (cur_objects s) page = Some l /\ l <> [] /\
+  AbstractDoc.effective_resources (cur_objects (fst (get_or_create_resources_v0 s page))) page = Some [].
+Proof. exact C07ResProofs.inc_resources_shadow_v0_refuted. Qed.
+
 Print Assumptions C07_merge_chain_latest.
 Print Assumptions C07_read_chain_partial.
 Print Assumptions C07_load_terminates.
@@ -414,3 +456,6 @@ Print Assumptions C07_inc_stream_step.
 Print Assumptions C07_example_reload.
 Print Assumptions C07_example_second_update.
 Print Assumptions C07_generation_hypothesis_needed.
+Print Assumptions C07_inc_resources_keep_inherited.
+Print Assumptions C07_example_inc_resources.
+Print Assumptions C07_inc_resources_shadow_v0_refuted.
